@@ -1,6 +1,7 @@
 """C10 - compile_code always returns a verdict, promptly, and cleans up (DESIGN section 10)."""
 import glob
 import os
+import re
 import signal
 import time
 
@@ -83,6 +84,11 @@ def make_opts(spec):
     return comp.CompileOptions(**spec["values"])
 
 
+def lines_of(t):
+    """lines as the Python tokenizer counts them: \\r\\n, \\r and \\n all end a line"""
+    return re.split(r"\r\n|\r|\n", t)
+
+
 def check_result(res, src):
     if not isinstance(res, dict):
         return "C10:result-is-not-a-dict", {"type": type(res).__name__}
@@ -107,14 +113,14 @@ def check_result(res, src):
     if line is not None:
         if not isinstance(line, int) or isinstance(line, bool):
             return "C10:error-line-not-an-int", {"line": repr(line)}
-        maxl = max(len(t.split("\n")) for t in texts) if texts else 0
+        maxl = max(len(lines_of(t)) for t in texts) if texts else 0
         if not 0 <= line <= maxl + 1:
             return "C10:error-position-outside-text", {"line": line, "lines_in_text": maxl, "description": err["description"][:200]}
         col = err.get("column")
         if isinstance(col, int) and not isinstance(col, bool):
             cand = []
             for t in texts:
-                ls = t.split("\n")
+                ls = lines_of(t)
                 for ln in (line - 1, line):
                     if 0 <= ln < len(ls):
                         cand.append(len(ls[ln]))
